@@ -130,6 +130,7 @@ func (e *EventEmitter) handleSubscriber(ctx context.Context, sub event.Subscript
 			if box, ok := e.(eventBox); ok {
 				e = box.evt
 			}
+			verifhook.At("emitter.received", cevent, e)
 
 			condProcess.L.Lock()
 			if queue.Len() == 0 && !inflight {
